@@ -1,4 +1,5 @@
 (* C01: (run_src <fuel> <prog>) | (compile <prog>) | (run_go <fuel> <prog>)   — coq/Core/FORMAT.md
+   additionally (fragment <prog>) -> FRAGMENT pap_args_pure | FRAGMENT wt | FRAGMENT none  (hypotheses of the theorem)
    The program s-expression is type-checked and elaborated here into the annotated MiniFo AST of
    coq/Core/MiniFo.v (see the header of that file for what elaboration adds); the answer of [compile]
    is the canonical MiniGo s-expression documented in coq/Core/FORMAT_GO.md. *)
@@ -484,6 +485,13 @@ let () = Registry.register "C01" (fun req ->
       | L [A "run_src"; A fuel; p] -> show_outcome (run_src (nat_of_int (int_of_string fuel)) (elab_prog p))
       | L [A "run_go"; A fuel; p] -> show_outcome (run_go (nat_of_int (int_of_string fuel)) (compile_prog (elab_prog p)))
       | L [A "compile"; p] -> to_string (gprog_sexp (compile_prog (elab_prog p)))
+      | L [A "fragment"; p] ->
+        (* is the program inside the fragment of Props/C01.v?  (Core/WfCheck.v, proved sound) *)
+        let p = elab_prog p in
+        let fuel = nat_of_int 100000 in
+        if wfp_b true p.p_unions fuel p then "FRAGMENT pap_args_pure"
+        else if wfp_b false p.p_unions fuel p then "FRAGMENT wt"
+        else "FRAGMENT none"
       | L [A "coq"; p] -> cq_prog (elab_prog p)   (* multi-line answer; for writing Coq Examples only *)
       | _ -> "ERR bad C01 request"
     with Ill m -> "STUCK " ^ quote ("ill-formed program: " ^ m))
